@@ -7,6 +7,7 @@ and generating responses, including Titan upload handlers.
 from abc import ABC, abstractmethod
 from pathlib import Path
 from typing import TYPE_CHECKING
+from urllib.parse import unquote
 
 from ..content.gemtext import generate_directory_listing
 from ..protocol.constants import (
@@ -96,11 +97,17 @@ class StaticFileHandler(RequestHandler):
         Returns:
             A GeminiResponse with the file contents or an error.
         """
-        # Get the requested path (remove leading slash)
-        requested_path = request.path.lstrip("/")
+        # Get the requested path (remove leading slash). Clients percent-encode
+        # characters such as spaces or non-ASCII letters (RFC 3986), so the
+        # path has to be decoded before it is looked up on the filesystem.
+        requested_path = unquote(request.path).lstrip("/")
 
         # Construct the full file path
-        file_path = (self.document_root / requested_path).resolve()
+        try:
+            file_path = (self.document_root / requested_path).resolve()
+        except (ValueError, OSError, RuntimeError):
+            # e.g. an encoded NUL byte or a symlink loop
+            return GeminiResponse(status=StatusCode.NOT_FOUND.value, meta="Not found")
 
         # Path traversal protection: ensure the resolved path is within document root
         if not self._is_safe_path(file_path):
